@@ -783,3 +783,270 @@ Proof.
   intros i body rt Hn. rewrite forallb_forall in Hp.
   apply nth_error_In in Hn. exact (Hp _ Hn).
 Qed.
+
+(* ------------------------------------------------------------------------------------------------ *)
+(* Part 3: the compiler's output verifies                                                            *)
+(* ------------------------------------------------------------------------------------------------ *)
+
+(* ---- the verifier on code fragments ---- *)
+Lemma vnext_default f pool L pc rest pend depth dec pops pushes :
+  d_op dec <> OP_RETURN -> d_op dec <> OP_JUMP -> d_op dec <> OP_IF_TRUE ->
+  vnext f pool L pc rest pend depth dec pops pushes =
+  vloop f pool L (pc + d_size dec) (skipn (d_size dec) rest) (Some (depth - pops + pushes)) (pend_del pc pend) false.
+Proof. intros H1 H2 H3. unfold vnext. destruct (d_op dec); try congruence; reflexivity. Qed.
+
+Lemma vloop_mono1 pool L : forall f pc rest d pend lr,
+  vloop f pool L pc rest d pend lr = true -> vloop (S f) pool L pc rest d pend lr = true.
+Proof.
+  induction f as [|f IH]; intros pc rest d pend lr H; [discriminate|].
+  destruct rest as [|b r]; [rewrite vloop_nil in *; exact H|].
+  rewrite vloop_S in *.
+  destruct (here d pend pc) as [depth|]; [|discriminate].
+  destruct (decode (b :: r)) as [dec|]; [|discriminate].
+  destruct (effect pool dec) as [[pops pushes]|]; [|discriminate].
+  apply andb_prop in H as [H1 H2]. rewrite H1. cbn [andb].
+  unfold vnext in *.
+  destruct (d_op dec); try (apply IH; exact H2);
+    try (destruct (d_jump dec); [|discriminate]);
+    apply andb_prop in H2 as [H2 H3]; rewrite H2; cbn [andb]; apply IH; exact H3.
+Qed.
+
+Lemma vloop_mono pool L f f' pc rest d pend lr :
+  f <= f' -> vloop f pool L pc rest d pend lr = true -> vloop f' pool L pc rest d pend lr = true.
+Proof. intros Hle. induction Hle as [|m Hm IH]; intros Hv; auto. apply vloop_mono1. auto. Qed.
+
+(* at a non-empty rest the verifier looks at (d, pend) only through [here], [agree] and [pend_del] *)
+Lemma vloop_norm f pool L pc rest d pend lr d' pend' lr' :
+  rest <> [] -> here d pend pc = here d' pend' pc ->
+  agree pend pc (here d pend pc) = agree pend' pc (here d' pend' pc) ->
+  pend_del pc pend = pend_del pc pend' ->
+  vloop f pool L pc rest d pend lr = vloop f pool L pc rest d' pend' lr'.
+Proof.
+  intros Hne Hh Ha Hp. destruct f; [reflexivity|]. destruct rest as [|b r]; [congruence|].
+  rewrite !vloop_S. rewrite <- Ha, <- Hh.
+  destruct (here d pend pc); [|reflexivity]. destruct (decode (b :: r)); [|reflexivity].
+  destruct (effect pool d0) as [[pops pushes]|]; [|reflexivity].
+  unfold vnext. rewrite Hp. reflexivity.
+Qed.
+
+Lemma pend_get_none pc pend : (forall x, In x pend -> fst x <> pc) -> pend_get pc pend = None.
+Proof.
+  induction pend as [|[p d] r IH]; intros H; [reflexivity|]. cbn [pend_get].
+  destruct (Nat.eqb p pc) eqn:E.
+  - apply Nat.eqb_eq in E. exfalso. apply (H (p, d)); [left; reflexivity|exact E].
+  - apply IH. intros x Hx. apply H. right. exact Hx.
+Qed.
+Lemma pend_del_id pc pend : (forall x, In x pend -> fst x <> pc) -> pend_del pc pend = pend.
+Proof.
+  induction pend as [|[p d] r IH]; intros H; [reflexivity|]. unfold pend_del in *. cbn [filter fst].
+  destruct (Nat.eqb p pc) eqn:E.
+  - apply Nat.eqb_eq in E. exfalso. apply (H (p, d)); [left; reflexivity|exact E].
+  - cbn [negb]. f_equal. apply IH. intros x Hx. apply H. right. exact Hx.
+Qed.
+Lemma pend_del_app pc a b : pend_del pc (a ++ b) = pend_del pc a ++ pend_del pc b.
+Proof. unfold pend_del. apply filter_app. Qed.
+Lemma pend_del_repeat pc h j : pend_del pc (repeat (pc, h) j) = [].
+Proof. induction j; [reflexivity|]. unfold pend_del in *. cbn [repeat filter fst]. rewrite Nat.eqb_refl. exact IHj. Qed.
+Lemma pend_del_not_in pc pend x : In x (pend_del pc pend) -> In x pend /\ fst x <> pc.
+Proof.
+  unfold pend_del. intros H. apply filter_In in H as [H1 H2]. split; auto.
+  intros E. rewrite E, Nat.eqb_refl in H2. discriminate.
+Qed.
+Lemma pend_del_del pc pend : pend_del pc (pend_del pc pend) = pend_del pc pend.
+Proof. apply pend_del_id. intros x Hx. apply pend_del_not_in in Hx. tauto. Qed.
+
+Lemma agree_app pend1 pend2 pc h : agree (pend1 ++ pend2) pc h = agree pend1 pc h && agree pend2 pc h.
+Proof. unfold agree. apply forallb_app. Qed.
+Lemma agree_repeat pc h j : agree (repeat (pc, h) j) pc (Some h) = true.
+Proof. induction j; [reflexivity|]. unfold agree in *. cbn [repeat forallb fst snd]. rewrite !Nat.eqb_refl. exact IHj. Qed.
+Lemma agree_none pend pc h : (forall x, In x pend -> fst x <> pc) -> agree pend pc h = true.
+Proof.
+  intros H. unfold agree. apply forallb_forall. intros x Hx.
+  destruct (Nat.eqb (fst x) pc) eqn:E; [|reflexivity]. apply Nat.eqb_eq in E. exfalso. eapply H; eauto.
+Qed.
+Lemma agree_del pend pc h : agree (pend_del pc pend) pc h = true.
+Proof. apply agree_none. intros x Hx. apply pend_del_not_in in Hx. tauto. Qed.
+
+Lemma here_some_repeat pc h j pend :
+  (forall x, In x pend -> fst x <> pc) -> here (Some h) (repeat (pc, h) j ++ pend) pc = Some h.
+Proof.
+  intros H. unfold here. destruct j as [|j].
+  - cbn [repeat app]. rewrite pend_get_none by exact H. reflexivity.
+  - cbn [repeat app pend_get]. rewrite !Nat.eqb_refl. reflexivity.
+Qed.
+
+(* a fragment at [pc] that takes depth [a + dep] to [b + dep], for every continuation *)
+Definition FR (pool : list const) (pc : nat) (frag : list N) (a b : nat) : Prop :=
+  forall dep L k f d pend lr,
+    k <> [] -> pc + len frag < L ->
+    here d pend pc = Some (a + dep) -> agree pend pc (Some (a + dep)) = true ->
+    (forall x, In x (pend_del pc pend) -> pc + len frag <= fst x) ->
+    (forall j, vloop f pool L (pc + len frag) k (Some (b + dep))
+                     (repeat (pc + len frag, b + dep) j ++ pend_del pc pend) false = true) ->
+    vloop (len frag + f) pool L pc (frag ++ k) d pend lr = true.
+
+Lemma FR_nil pool pc a : FR pool pc [] a a.
+Proof.
+  intros dep L k f d pend lr Hk HL Hh Ha Hp Hc. cbn [len List.length app Nat.add].
+  specialize (Hc 0). cbn [len List.length repeat app] in Hc. rewrite Nat.add_0_r in Hc.
+  rewrite <- Hc. apply vloop_norm; auto.
+  - rewrite Hh. unfold here. rewrite pend_get_none; [reflexivity|].
+    intros x Hx. apply pend_del_not_in in Hx. tauto.
+  - rewrite Hh, Ha. symmetry. apply agree_del.
+  - symmetry. apply pend_del_del.
+Qed.
+
+Lemma len_app {X} (a b : list X) : len (a ++ b) = len a + len b.
+Proof. unfold len. apply app_length. Qed.
+
+Lemma FR_app pool pc f1 f2 a b c :
+  f2 <> [] -> FR pool pc f1 a b -> FR pool (pc + len f1) f2 b c -> FR pool pc (f1 ++ f2) a c.
+Proof.
+  intros Hne H1 H2 dep L k f d pend lr Hk HL Hh Ha Hp Hc. unfold FR in H1, H2.
+  rewrite len_app in *. rewrite <- app_assoc. rewrite <- Nat.add_assoc.
+  assert (Hl2 : 0 < len f2) by (destruct f2; [congruence|cbn; lia]).
+  apply (H1 dep); auto.
+  - destruct f2; [congruence|discriminate].
+  - lia.
+  - intros x Hx. specialize (Hp x Hx). lia.
+  - intros j.
+    assert (Hfar : forall x, In x (pend_del pc pend) -> fst x <> pc + len f1).
+    { intros x Hx. specialize (Hp x Hx). lia. }
+    apply (H2 dep); auto.
+    + lia.
+    + apply here_some_repeat. exact Hfar.
+    + rewrite agree_app, agree_repeat. apply agree_none. exact Hfar.
+    + rewrite pend_del_app, pend_del_repeat. cbn [app]. rewrite pend_del_id by exact Hfar.
+      intros x Hx. specialize (Hp x Hx). lia.
+    + intros j2. rewrite pend_del_app, pend_del_repeat. cbn [app]. rewrite pend_del_id by exact Hfar.
+      rewrite <- Nat.add_assoc. apply Hc.
+Qed.
+
+Lemma FR_frame pool pc frag a b c : FR pool pc frag a b -> FR pool pc frag (a + c) (b + c).
+Proof.
+  intros H dep L k f d pend lr Hk HL Hh Ha Hp Hc. unfold FR in H.
+  rewrite <- Nat.add_assoc in Hh, Ha.
+  apply (H (c + dep) L k f d pend lr); auto.
+  intros j. rewrite Nat.add_assoc. apply Hc.
+Qed.
+
+Lemma skipn_len_app {X} (a b : list X) : skipn (len a) (a ++ b) = b.
+Proof. unfold len. induction a; cbn; auto. Qed.
+
+(* one instruction that neither jumps nor returns *)
+Lemma FR_instr pool pc ins dec pops pushes a b :
+  (forall k, decode (ins ++ k) = Some dec) -> d_size dec = len ins -> ins <> [] ->
+  effect pool dec = Some (pops, pushes) -> pops <= a -> b = a - pops + pushes ->
+  d_op dec <> OP_RETURN -> d_op dec <> OP_JUMP -> d_op dec <> OP_IF_TRUE ->
+  FR pool pc ins a b.
+Proof.
+  intros Hdec Hsz Hne Heff Hpops Hb Ho1 Ho2 Ho3 dep L k f d pend lr Hk HL Hh Ha Hp Hc.
+  destruct ins as [|b0 r]; [congruence|].
+  change (len (b0 :: r)) with (S (len r)) in *. cbn [Nat.add app].
+  rewrite vloop_S. rewrite Hh. change (b0 :: r ++ k) with ((b0 :: r) ++ k). rewrite Hdec, Heff, Ha.
+  assert (Hle : Nat.leb pops (a + dep) = true) by (apply Nat.leb_le; lia). rewrite Hle. cbn [andb].
+  rewrite vnext_default by assumption. rewrite Hsz.
+  change (S (len r)) with (len (b0 :: r)). rewrite skipn_len_app.
+  eapply vloop_mono; [|specialize (Hc 0); cbn [repeat app] in Hc].
+  2: { replace (a + dep - pops + pushes) with (b + dep) by lia. exact Hc. }
+  lia.
+Qed.
+
+Lemma repeat_snoc_app {X} (x : X) j l : repeat x j ++ x :: l = repeat x (S j) ++ l.
+Proof. induction j; cbn [repeat app] in *; [reflexivity|]. rewrite IHj. reflexivity. Qed.
+
+Lemma decode_if b hi lo k : decode_op b = Some OP_IF_TRUE ->
+  decode (b :: hi :: lo :: k) = Some (mkDec OP_IF_TRUE None None (Some (hi * 256 + lo)%N) None 3).
+Proof. intros H. rewrite decode_cons, H. reflexivity. Qed.
+Lemma decode_jump b hi lo k : decode_op b = Some OP_JUMP ->
+  decode (b :: hi :: lo :: k) = Some (mkDec OP_JUMP None None (Some (hi * 256 + lo)%N) None 3).
+Proof. intros H. rewrite decode_cons, H. reflexivity. Qed.
+
+Lemma FR_cond pool pc pc2 bf nx fc ft fe bIF bJ bh bl nh nl :
+  decode_op bIF = Some OP_IF_TRUE -> decode_op bJ = Some OP_JUMP ->
+  fe <> [] ->
+  pc2 = pc + len fc + 3 -> bf = pc2 + len ft + 3 -> nx = bf + len fe ->
+  FR pool pc fc 0 1 -> FR pool pc2 ft 0 1 -> FR pool bf fe 0 1 ->
+  N.to_nat (bh * 256 + bl) = bf ->
+  N.to_nat (nh * 256 + nl) = nx ->
+  FR pool pc (fc ++ [bIF; bh; bl] ++ ft ++ [bJ; nh; nl] ++ fe) 0 1.
+Proof.
+  intros HbIF HbJ Hfene Epc2 Ebf0 Enx0 Hfc Hft Hfe Ebf Enx' dep L k f d pend lr Hk HL Hh Ha Hp Hc.
+  unfold FR in Hfc, Hft, Hfe.
+  assert (Hlfe : 0 < len fe) by (destruct fe; [congruence|cbn; lia]).
+  assert (Hlen : len (fc ++ [bIF; bh; bl] ++ ft ++ [bJ; nh; nl] ++ fe) = len fc + 3 + len ft + 3 + len fe).
+  { rewrite !len_app. cbn [len List.length]. unfold len. lia. }
+  rewrite Hlen in *.
+  set (P := pend_del pc pend) in *.
+  assert (Enx : pc + (len fc + 3 + len ft + 3 + len fe) = nx) by lia.
+  rewrite Enx in *.
+  assert (HP : forall q, q < nx -> forall x, In x P -> fst x <> q).
+  { intros q Hq x Hx. specialize (Hp x Hx). lia. }
+  apply vloop_mono with (f := len fc + S (len ft + S (len fe + f))); [lia|].
+  replace ((fc ++ [bIF; bh; bl] ++ ft ++ [bJ; nh; nl] ++ fe) ++ k)
+    with (fc ++ ([bIF; bh; bl] ++ ft ++ ([bJ; nh; nl] ++ fe ++ k))).
+  2: { rewrite <- !app_assoc. reflexivity. }
+  apply (Hfc dep); auto.
+  - discriminate.
+  - lia.
+  - intros x Hx. specialize (Hp x Hx). lia.
+  - intros j1. fold P. cbn [Nat.add app].
+    rewrite vloop_S.
+    rewrite here_some_repeat by (apply HP; lia).
+    rewrite (decode_if _ _ _ _ HbIF). cbn [effect d_op].
+    rewrite agree_app, agree_repeat, (agree_none P) by (apply HP; lia).
+    cbn [andb Nat.leb]. unfold vnext. cbn [d_op d_jump d_size]. rewrite Ebf.
+    assert (E1 : Nat.ltb (pc + len fc) bf = true) by (apply Nat.ltb_lt; lia). rewrite E1.
+    assert (E2 : Nat.ltb bf L = true) by (apply Nat.ltb_lt; lia). rewrite E2. cbn [andb].
+    rewrite pend_del_app, pend_del_repeat, (pend_del_id (pc + len fc) P) by (apply HP; lia). cbn [app skipn].
+    replace (S dep - 1 + 0) with dep by lia. rewrite <- Epc2.
+    assert (HP2 : forall q, q <> bf -> q < nx -> forall x, In x ((bf, dep) :: P) -> fst x <> q).
+    { intros q Hq1 Hq2 x [Hx|Hx]; [subst x; cbn; lia|apply HP; auto]. }
+    apply (Hft dep); auto.
+    + discriminate.
+    + lia.
+    + unfold here. rewrite pend_get_none by (apply HP2; lia). reflexivity.
+    + apply agree_none. apply HP2; lia.
+    + rewrite pend_del_id by (apply HP2; lia).
+      intros x [Hx|Hx]; [subst x; cbn; lia|specialize (Hp x Hx); lia].
+    + intros j2. rewrite (pend_del_id pc2) by (apply HP2; lia). cbn [Nat.add app].
+      rewrite vloop_S.
+      rewrite here_some_repeat by (apply HP2; lia).
+      rewrite (decode_jump _ _ _ _ HbJ). cbn [effect d_op].
+      rewrite agree_app, agree_repeat, (agree_none ((bf, dep) :: P)) by (apply HP2; lia).
+      cbn [andb Nat.leb]. unfold vnext. cbn [d_op d_jump d_size]. rewrite Enx'.
+      assert (E3 : Nat.ltb (pc2 + len ft) nx = true) by (apply Nat.ltb_lt; lia). rewrite E3.
+      assert (E4 : Nat.ltb nx L = true) by (apply Nat.ltb_lt; lia). rewrite E4. cbn [andb].
+      rewrite pend_del_app, pend_del_repeat, (pend_del_id (pc2 + len ft) ((bf, dep) :: P)) by (apply HP2; lia). cbn [app skipn].
+      replace (S dep - 0 + 0) with (S dep) by lia. rewrite <- Ebf0.
+      assert (E5 : Nat.eqb nx bf = false) by (apply Nat.eqb_neq; lia).
+      assert (Ed : pend_del bf ((nx, S dep) :: (bf, dep) :: P) = (nx, S dep) :: P).
+      { unfold pend_del. cbn [filter fst]. rewrite E5, Nat.eqb_refl. cbn [negb].
+        f_equal. apply (pend_del_id bf P). apply HP; lia. }
+      apply (Hfe dep); auto.
+      * lia.
+      * unfold here. cbn [pend_get]. rewrite E5, Nat.eqb_refl. reflexivity.
+      * unfold agree. cbn [forallb fst snd]. rewrite E5, !Nat.eqb_refl. cbn [andb].
+        apply (agree_none P bf (Some (0 + dep))). apply HP; lia.
+      * rewrite Ed. intros x [Hx|Hx]; [subst x; cbn; lia|specialize (Hp x Hx); lia].
+      * intros j3. rewrite Ed. rewrite <- Enx0. rewrite repeat_snoc_app. apply Hc.
+Qed.
+
+(* a whole code object: a fragment for one value, then RETURN *)
+Lemma verify_of_FR pool frag bR :
+  decode_op bR = Some OP_RETURN -> FR pool 0 frag 0 1 -> verify pool (frag ++ [bR]) = true.
+Proof.
+  intros HbR H. unfold verify, FR in *.
+  rewrite len_app. change (len [bR]) with 1.
+  replace (S (len frag + 1)) with (len frag + 2) by lia.
+  apply (H 0); auto.
+  - discriminate.
+  - lia.
+  - intros x [].
+  - intros j. cbn [Nat.add pend_del filter].
+    rewrite vloop_S. rewrite (here_some_repeat (len frag) 1 j []) by (intros x []).
+    rewrite app_nil_r.
+    rewrite decode_cons, HbR. cbn [operands decode_go effect d_op].
+    rewrite agree_repeat. cbn [andb Nat.leb]. unfold vnext. cbn [d_op d_size skipn Nat.eqb andb].
+    rewrite pend_del_repeat. reflexivity.
+Qed.
